@@ -755,12 +755,17 @@ class Lower:
             if len(s) > 2 and s[2]:
                 sw.append(labs[(s[2] - 1) % len(labs)])  # the same label may be named twice
                 self.feats.append("switch_repeated_label")
+            if len(s) > 2 and s[2] == 2 and self.cfg.on("switch_to_join"):
+                sw.append(end)  # one value selects the join directly
+                self.feats.append("switch_targets_join")
             self.emit(I("switch", *sw))
             self.emit(I("b", end))
-            for lb, arm in zip(labs, arms):
+            for n_arm, (lb, arm) in enumerate(zip(labs, arms)):
                 self.emit(L(lb))
                 self.stmts(arm, in_sub)
-                if not terminal(arm):
+                # the last arm needs no `b end`: the join is the next line (when the arm ends in a call, the join -
+                # possibly a switch target itself - is the return point of that call)
+                if not terminal(arm) and not (n_arm == len(arms) - 1 and self.cfg.on("switch_to_join")):
                     self.emit(I("b", end))
             self.emit(L(end))
         elif k == "shuffle":
